@@ -215,6 +215,14 @@ def finish(ctx, violations, coverage, assumptions=(), level="model_checking"):
         os.makedirs(rdir, exist_ok=True)
         vs.sort(key=lambda v: (len(json.dumps(v.get("trace", ""))), str(v.get("what"))))
         v = vs[0]
+        lazy = v.pop("_lazy", None)
+        if lazy is not None:
+            try:
+                v["trace"].update(lazy())
+            except Machinery as e:     # the witness is an aid; the verdict stands without it
+                v["trace"]["witness_error"] = str(e)
+        for x in vs[1:]:
+            x.pop("_lazy", None)
         path = os.path.join(rdir, f"{clause.replace('.', '_')}-{cls}.json")
         with open(path, "w") as f:
             json.dump({"property": ctx.pid, "clause": clause, "cls": cls, "count": len(vs),
